@@ -313,8 +313,74 @@ def run(ctx):
   ctx.extra["rejected_at_construction"] = rejected
   log("  %d round trips (%d argument combinations rejected by the constructors)" % (len(events), rejected))
   ctx.sample({k: events[len(events) // 2].get(k) for k in ("cls", "status", "cfg1", "outs1", "outs2")})
+  events += cross_process_events(tf, tfl, ctx, rng)
   ctx.validate("TraceRoundTrip", events)
   return ctx.finish()
+
+
+def cross_process_events(tf, tfl, ctx, rng):
+  """Config + weights written by this interpreter, model rebuilt from them by interpreters with other string-hash
+  seeds (harness/c11_child.py): seed-derived structure (random ensembles, RTL) is part of what the config denotes."""
+  import os
+  import shutil
+  import subprocess
+  import sys
+  import tempfile
+  import c11_child
+  os.makedirs(common.WORK, exist_ok=True)
+  wd = tempfile.mkdtemp(prefix="c11x_", dir=common.WORK)
+  jobs, mine = [], {}
+  try:
+    shapes = [(8, 4, 3, "random", False), (6, 5, 2, "random", True), (5, 3, 3, "rtl_layer", False)]
+    if not ctx.quick:
+      shapes += [(9, 5, 3, "random", True), (7, 6, 2, "random", False), (4, 3, 3, "random", False), (6, 4, 3, "rtl_layer", True)]
+    for n, (nf, nl, rank, kind, sep) in enumerate(shapes):
+      names = ["feature_%s" % "abcdefghij"[i] for i in range(nf)]
+      fcs = [tfl.configs.FeatureConfig(name=nm, lattice_size=2, monotonicity="increasing" if i % 2 == 0 else "none",
+                                       pwl_calibration_input_keypoints=[0.0, 0.25 + 0.05 * i, 1.0]) for i, nm in enumerate(names)]
+      cfg = tfl.configs.CalibratedLatticeEnsembleConfig(feature_configs=fcs, lattices=kind, num_lattices=nl, lattice_rank=rank,
+                                                        separate_calibrators=sep, output_initialization=[0.0, 1.0],
+                                                        random_seed=int(ctx.seed) + 7 + n)
+      cj = json.loads(json.dumps(cfg.get_config()))
+      _, lat, model = c11_child.rebuild(tfl, cj)
+      for layer in model.layers:      # distinct vertex values everywhere
+        if isinstance(layer, (tfl.layers.Lattice, tfl.layers.RTL)):
+          layer.set_weights([rng.uniform(0.0, 1.0, size=w.shape).astype(np.float32) for w in layer.get_weights()])
+      wname = "w%d.h5" % n
+      model.save_weights(os.path.join(wd, wname))
+      y = model.predict(c11_child.probe(np, nf), verbose=0)
+      jobs.append({"id": n, "config": cj, "weights": wname, "nf": nf})
+      mine[n] = (lat, ints(np.ravel(y)), {"nf": nf, "nl": nl, "rank": rank, "lattices": kind, "sep": sep})
+    with open(os.path.join(wd, "jobs.json"), "w") as f:
+      json.dump(jobs, f)
+    evs = []
+    for hs in (1, 2) if ctx.quick else (1, 2, 3, 4):
+      p = subprocess.run([sys.executable, os.path.join(os.path.dirname(os.path.abspath(__file__)), "c11_child.py"), wd],
+                         stdout=subprocess.PIPE, stderr=subprocess.DEVNULL, text=True, env=dict(os.environ, PYTHONHASHSEED=str(hs)),
+                         timeout=1800)
+      res = None
+      for line in p.stdout.splitlines():
+        if line.startswith("C11CHILD "):
+          res = json.loads(line[len("C11CHILD "):])
+      if res is None:
+        raise common.MachineryError("C11 child interpreter produced no result (rc=%s)" % p.returncode)
+      for r in res:
+        lat, outs, call = mine[r["id"]]
+        cls = "CalibratedLatticeEnsembleConfig/other-process"
+        ev = {"ev": "RoundTrip", "cls": cls, "status": "ok", "cfg1": json.dumps(lat), "cfg2": "-", "vars1": "-", "vars2": "-",
+              "outs1": outs, "outs2": [], "tolu": 4, "site": {"layer": "roundtrip", "cls": cls},
+              "call": dict(call, hashseed=hs, kind="cross_process")}
+        if "raised" in r:
+          ev["status"] = "rebuild_in_other_process:" + r["raised"].split(":")[0]
+          ev["exc"] = r["raised"]
+        else:
+          ev["cfg2"] = json.dumps(r["lattices"])
+          ev["outs2"] = ints(np.asarray(r["outs"]))
+        evs.append(ev)
+        ctx.count(1, nontrivial_key=("xproc", r["id"], hs))
+    return evs
+  finally:
+    shutil.rmtree(wd, ignore_errors=True)
 
 
 def replay(ctx, path):
@@ -324,6 +390,11 @@ def replay(ctx, path):
   with open(path) as f:
     rec = json.load(f)
   events = []
+  if any(ev["call"].get("kind") == "cross_process" for ev in rec["events"]):
+    for e2 in cross_process_events(tf, tfl, ctx, rng):
+      log("replay other-process rebuild %s -> %s %s / %s" % (e2["call"], e2["status"], e2["cfg1"], e2["cfg2"]))
+      events.append(e2)
+    rec["events"] = []
   for ev in rec["events"]:
     c = ev["call"]
     e2 = one_round_trip(tf, tfl, reg, c["cls"], [tuple(a) for a in c["args"]], rng, save_formats=("keras", "h5"))
